@@ -402,3 +402,49 @@ def rule_format_msgs(text, repl="__msg()"):
         pairs.append((text[s:c + 1], repl))
         text = text[:s] + repl + text[c + 1:]
     return text, pairs
+
+
+def _skip_ws(t, i):
+    while i < len(t) and t[i] in " \t\r\n":
+        i += 1
+    return i
+
+
+def _apply_fn_text(f, arg):
+    """f is the text inside .map( .. ): a constructor path or a closure `|x| body`."""
+    f = f.strip()
+    if f.startswith("|"):
+        j = f.index("|", 1)
+        pat = f[1:j].strip()
+        body = f[j + 1:].strip()
+        return "{ let " + pat + " = " + arg + "; " + body + " }"
+    return f"{f}({arg})"
+
+
+def unfold_maps_after(text, recv_start, recv_end, kind="Result"):
+    """The receiver expression is text[recv_start:recv_end]; peel every directly following `.map(F)` and rebuild the chain
+    as nested matches (definition of Result::map / Option::map). Returns (new_text, before, after) or None if no .map follows."""
+    fs = []
+    j = recv_end
+    while True:
+        k = _skip_ws(text, j)
+        if text.startswith(".map(", k):
+            o = k + 4
+            c = match_close(text, o)
+            fs.append(text[o + 1:c])
+            j = c + 1
+        else:
+            break
+    if not fs:
+        return None
+    expr = text[recv_start:recv_end]
+    n = 0
+    for f in fs:
+        n += 1
+        v = f"v__{n}"
+        if kind == "Result":
+            expr = f"(match {expr} {{ Ok({v}) => Ok({_apply_fn_text(f, v)}), Err(e__) => Err(e__) }})"
+        else:
+            expr = f"(match {expr} {{ Some({v}) => Some({_apply_fn_text(f, v)}), None => None }})"
+    before = text[recv_start:j]
+    return text[:recv_start] + expr + text[j:], before, expr
